@@ -630,3 +630,57 @@ fn gen_step(g: &mut Gen, weights: &[u32; 27]) -> Step {
         }
     }
 }
+
+// ------------------------------------------------------------------------------------------
+// threaded scenarios (C14): build-up script + cuts of the whole-map view + per-worker actions
+
+#[derive(Clone, Debug, Serialize, Deserialize, PartialEq)]
+pub struct ThreadScn {
+    pub verif_seed: u64,
+    pub idx: u64,
+    pub script: Script,
+    /// navigation actions that cut the whole-map mutable view into disjoint views
+    pub cuts: Vec<MAct>,
+    /// one action list per worker thread
+    pub workers: Vec<Vec<MAct>>,
+}
+
+pub fn gen_thread_scn(verif_seed: u64, idx: u64, small: bool) -> ThreadScn {
+    let params = GenParams { property: "C14".into(), tier_thorough: false, profile: "checked".into() };
+    let mut script = generate(verif_seed, &params, idx);
+    // build-up: plain mutators only, on one map
+    script.steps.retain(|s| matches!(s, Step::Insert { .. } | Step::Remove { .. } | Step::RemoveKeepTree { .. } | Step::RemoveChildren { .. } | Step::Entry { .. }));
+    script.steps.truncate(if small { 14 } else { 40 });
+    script.cfg.n_maps = 1;
+    script.cfg.n_sets = 0;
+    script.cfg.faults = false;
+    let mut rng = Rng::new(crate::rng::mix64(script.seed ^ 0x7472_6561_6473));
+    let width = script.cfg.ptype.width();
+    let hot = script.cfg.universe.clone();
+    let mut g = Gen { rng: &mut rng, cfg: script.cfg.clone(), width, next_v: 1 << 32, hot, uar: false };
+    let ncuts = g.rng.range(1, 6);
+    let mut cuts = vec![];
+    for _ in 0..ncuts {
+        let i = g.rng.next() as u32;
+        cuts.push(match g.rng.below(8) {
+            0..=4 => MAct::Split(i),
+            5 => MAct::Find(i, g.q()),
+            6 => MAct::Left(i),
+            _ => MAct::Right(i),
+        });
+    }
+    let nw = g.rng.range(2, 4);
+    let mut workers = vec![];
+    for _ in 0..nw {
+        let n = if small { g.rng.range(2, 7) } else { g.rng.range(3, 14) };
+        let acts: Vec<MAct> = (0..n)
+            .map(|_| match g.mact() {
+                MAct::SetOpOther { i, .. } => MAct::Peek(i),
+                MAct::Forget(i) => MAct::IntoIter(i),
+                a => a,
+            })
+            .collect();
+        workers.push(acts);
+    }
+    ThreadScn { verif_seed, idx, script, cuts, workers }
+}
